@@ -127,3 +127,7 @@ package m
 //@ func RoutingTable.RemoveNextHop$RemoveNextHop$1
 //@   requires rte != nil
 //@   ensures exactly-that-next-hop [C11]: result == (rte.NextHop == old(ip))
+
+// The address of an identity is set when the identity value is built and never reassigned.
+//@ type PublicAddress
+//@   frozen IP by tryToGenerateAddress, AddressFromStorage, PublicAddressFromKeyPair, AddressFromKeyPair, router.Router.sessionFromPingHeader, router.AnnouncePingHandler.sessionFromAnnouncePingAttachment
